@@ -105,7 +105,7 @@ def outcome_of(p: Path, view: View, in_loop: bool = False) -> Outcome:
                 continue
             if not view.keep_call(e.target):
                 continue
-            a = list(e.args) + ['%s=%s' % kv for kv in e.kwargs]
+            a = list(e.args) + sorted('%s=%s' % kv for kv in e.kwargs)
             o.segments[-1][0].append('call %s(%s)' % (e.target, ', '.join(a)))
         elif e.kind == 'yield':
             o.segments[-1][0].append('yield %s' % e.value)
